@@ -572,3 +572,17 @@ Proof.
   exists N, (eval_program false P N rs). split; [apply HN, le_n|].
   intros n Hn. apply (FuelProofs.eval_program_fuel_mono false P N n rs _ eq_refl (HN N (le_n _)) Hn).
 Qed.
+
+(** * for well-typed programs the code's evaluation is the lexical evaluation, without exception *)
+From Oal Require EvalProofs.
+Theorem typed_evaluation_is_lexical E P rs n :
+  Typing.wt_progb E P rs = true -> closed_prog P -> forallb (closed []) rs = true ->
+  eval_program false P n rs = eval_program true P n rs.
+Proof.
+  intros Hwt Hcp Hrs.
+  pose proof (EvalProofs.eval_program_lexical P n rs Hcp Hrs) as Hlex.
+  pose proof (TypingProofs.typed_programs_lx E P rs true n Hwt) as Hty.
+  destruct (eval_program true P n rs) as [v|e|p|]; try exact Hlex.
+  destruct Hlex as [->|Hlex]; [|exact Hlex].
+  exfalso. destruct Hty as [H|[H|[H|H]]]; discriminate H.
+Qed.
